@@ -238,7 +238,9 @@ def main():
         'checks': checks,
         'not_applicable': na,
         'notes': 'Static analysis only: no registered check executes library code or calls a solver. Exit 2 = '
-                 'analysis broken (anchor vanished / instance floor missed), never a pass. See DESIGN.md.',
+                 'analysis broken (anchor vanished / instance floor missed), never a pass. Tiers: every analysis is exhaustive over its '
+                 'domain on every run; quick may reuse facts extracted from a byte-identical tree (content-hash keyed cache), thorough '
+                 're-extracts everything from /repo. See DESIGN.md.',
     }
     with open(os.path.join(VERIF, 'MANIFEST.json'), 'w') as f:
         json.dump(man, f, indent=1)
